@@ -54,6 +54,64 @@ structure Store where
   cfg : Tables := default           -- unit tables (Generated for the model, Reference for the spec)
   deriving Inhabited
 
+/-! ### pure store layer (the theorems of C17 are about these functions) -/
+
+def Store.arrO? (s : Store) (id : Nat) : Option ArrO :=
+  match s.objs[id]? with
+  | some (.arr a) => some a
+  | _ => none
+
+/-- value of an Array object: its view of its buffer -/
+def Store.readArr? (s : Store) (id : Nat) : Option ArrV :=
+  match s.arrO? id with
+  | none => none
+  | some a =>
+    match s.bufs[a.buf]? with
+    | none => none
+    | some b => some { shape := a.shape, dtype := b.dtype, data := a.idx.map (getR b.data),
+                       unit := a.unit, name := a.name }
+
+/-- write values at the given buffer positions -/
+def scatter (buf : List Rat) : List Nat → List Rat → List Rat
+  | i :: is, x :: xs => scatter (buf.set i x) is xs
+  | _, _ => buf
+
+/-- write values through an Array's view into its buffer and rebind its unit on that object -/
+def Store.writeArr? (s : Store) (id : Nat) (data : List Rat) (unit : U) : Option Store :=
+  match s.arrO? id with
+  | none => none
+  | some a =>
+    match s.bufs[a.buf]? with
+    | none => none
+    | some b =>
+      some { s with bufs := s.bufs.set a.buf { b with data := scatter b.data a.idx data },
+                    objs := s.objs.set id (.arr { a with unit := unit }) }
+
+/-- a fresh Array object on a fresh buffer; returns the new store and the object id -/
+def Store.allocArr (s : Store) (v : ArrV) : Store × Nat :=
+  ({ s with bufs := s.bufs ++ [{ dtype := v.dtype, data := v.data }],
+            objs := s.objs ++ [.arr { buf := s.bufs.length, idx := List.range v.data.length,
+                                      shape := v.shape, unit := v.unit, name := v.name }] },
+   s.objs.length)
+
+/-- in-place Array operator `lhs op= rhs` (`out=self`) on the store -/
+def Store.arrInplace (T : Tables) (op : BinOp) (s : Store) (lhsId : Nat) (rhs : ArrV) : Except Err Store :=
+  match s.readArr? lhsId with
+  | none => .error .typeErr
+  | some lhs =>
+    match ArrV.binaryOp T op lhs rhs with
+    | .error e => .error e
+    | .ok r =>
+      if r.shape != lhs.shape then .error .valueErr
+      else if !DType.canCastSameKind r.dtype lhs.dtype then .error .typeErr
+      else
+        -- the unit rule is evaluated on the dtype of the `out` array
+        let rhs' := match rhs.to lhs.unit with | .ok (x, _) => x | .error _ => rhs
+        let unit := wrapUnit T op.npName lhs.dtype lhs.unit (op.derivedUnit lhs.unit rhs'.unit)
+        match s.writeArr? lhsId r.data unit with
+        | some s' => .ok s'
+        | none => .error .typeErr
+
 abbrev M := StateT Store (Except Err)
 
 def fail {α : Type} (e : Err) : M α := throw e
@@ -113,9 +171,9 @@ def getDsO (id : Nat) : M DsO := do
 
 /-- value of an Array object -/
 def readArr (id : Nat) : M ArrV := do
-  let a ← getArrO id
-  let b ← getBuf a.buf
-  pure { shape := a.shape, dtype := b.dtype, data := a.idx.map (getR b.data), unit := a.unit, name := a.name }
+  match (← get).readArr? id with
+  | some v => pure v
+  | none => fail .typeErr
 
 def readVec (id : Nat) : M VecV := do
   let v ← getVecO id
@@ -130,8 +188,9 @@ def readMember (id : Nat) : M MemberV := do
 
 /-- a fresh Array object on a fresh buffer -/
 def allocArr (v : ArrV) : M Nat := do
-  let b ← newBuf { dtype := v.dtype, data := v.data }
-  newObj (.arr { buf := b, idx := List.range v.data.length, shape := v.shape, unit := v.unit, name := v.name })
+  let (s', id) := (← get).allocArr v
+  set s'
+  pure id
 
 /-- `Array(values=a.values, unit=...)`: a new object on the same buffer, except that the
     `.values` of a 0-d Array is a numpy scalar, i.e. a copy -/
@@ -154,7 +213,8 @@ def liftR {α : Type} (r : Res α) : M α := match r with | .ok a => pure a | .e
 
 /-- allocate a Vector value on fresh buffers -/
 def allocVec (v : VecV) : M Nat := do
-  let ids ← v.comps.mapM allocArr
+  -- the constructor's name setter names the components `<name>_<c>`
+  let ids ← (v.rename v.name).comps.mapM allocArr
   newObj (.vec { comps := ids, name := v.name })
 
 /-- rename an object in place (`value.name = key`) -/
@@ -171,11 +231,16 @@ def renameObj (id : Nat) (name : String) : M Unit := do
 
 /-- write values through an Array's view into its buffer and rebind its unit -/
 def writeArr (id : Nat) (data : List Rat) (unit : U) : M Unit := do
-  let a ← getArrO id
-  let b ← getBuf a.buf
-  let data' := (List.zip a.idx data).foldl (fun (d : List Rat) (p : Nat × Rat) => d.set p.1 p.2) b.data
-  modify fun s => { s with bufs := s.bufs.set a.buf { b with data := data' } }
-  setObj id (.arr { a with unit := unit })
+  match (← get).writeArr? id data unit with
+  | some s' => set s'
+  | none => fail .typeErr
+
+/-! ### right operands -/
+
+inductive Rhs
+  | var (v : Nat)
+  | val (a : ArrV)            -- number / ndarray / Quantity, already as the Array `Array(rhs)` builds
+  deriving Repr, Inhabited
 
 /-- run actions one after the other, keeping the effects of those that succeeded;
     stops at the first failure and reports it (Python loops that raise midway) -/
@@ -189,26 +254,13 @@ def partialSeq (acts : List (M Unit)) : M (Option Err) := do
       | .error e => err := some e
   pure err
 
-/-! ### right operands -/
-
-inductive Rhs
-  | var (v : Nat)
-  | val (a : ArrV)            -- number / ndarray / Quantity, already as the Array `Array(rhs)` builds
-  deriving Repr, Inhabited
-
 /-- in-place Array operator `lhs op= rhs` (`out=self`): the result is written through the
     view, the unit is rebound on the *same* object, which is returned -/
 def arrInplace (op : BinOp) (lhsId : Nat) (rhs : ArrV) : M Nat := do
-  let lhs ← readArr lhsId
   let T ← tables
-  let r ← liftR (ArrV.binaryOp T op lhs rhs)
-  if r.shape != lhs.shape then fail .valueErr
-  if !DType.canCastSameKind r.dtype lhs.dtype then fail .typeErr
-  -- the unit rule is evaluated on the dtype of the `out` array
-  let rhs' := match rhs.to lhs.unit with | .ok (x, _) => x | .error _ => rhs
-  let unit := wrapUnit T op.npName lhs.dtype lhs.unit (op.derivedUnit lhs.unit rhs'.unit)
-  writeArr lhsId r.data unit
-  pure lhsId
+  match Store.arrInplace T op (← get) lhsId rhs with
+  | .ok s' => set s'; pure lhsId
+  | .error e => fail e
 
 def rhsArr (r : Rhs) : M (Option ArrV × Option Nat) := do
   match r with
@@ -219,20 +271,17 @@ def rhsArr (r : Rhs) : M (Option ArrV × Option Nat) := do
     | .arr _ => do pure (some (← readArr id), some id)
     | _ => pure (none, some id)
 
-/-- Vector in-place operator as repaired: per-component in-place update, `self` returned -/
-def vecInplace (op : BinOp) (lhsId : Nat) (rhs : VRhs) : M Nat := do
+/-- Vector in-place operator as repaired: per-component in-place update, `self` returned;
+    `some e`: the exception raised at some component (earlier components stay updated) -/
+def vecInplace (op : BinOp) (lhsId : Nat) (rhs : VRhs) : M (Option Err) := do
   let v ← getVecO lhsId
   let lv ← readVec lhsId
   let rcomps : List ArrV := match rhs with
     | .vec w => w.comps
     | .arr a => lv.comps.map (fun _ => a)
   if lv.comps.length != rcomps.length then fail .valueErr
-  for p in List.zip v.comps rcomps do
-    let _ ← arrInplace op p.1 p.2
-  -- the constructor validation of the (old) code is kept: components must still agree
-  let lv' ← readVec lhsId
-  let _ ← liftR (VecV.ofArrs lv'.comps lv'.name)
-  pure lhsId
+  -- component after component: an exception at the second component leaves the first updated
+  partialSeq ((List.zip v.comps rcomps).map fun p => do let _ ← arrInplace op p.1 p.2)
 
 /-! ### observations -/
 
